@@ -24,7 +24,7 @@ import (
 )
 
 type C01Op struct {
-	Kind       string `json:"kind"` // connect | update | snapshot
+	Kind       string `json:"kind"` // connect | update | snapshot | slowconnect (an update lands between connect and first bytes)
 	Key        int    `json:"key,omitempty"`
 	IP         int    `json:"ip,omitempty"`
 	Mut        string `json:"mut,omitempty"` // none | trunc | flip | random | extend
@@ -69,7 +69,7 @@ func genC01(maxKeys, maxOps int) func(t *rapid.T) C01Case {
 		c.IPs = rapid.SliceOfNDistinct(rapid.SampledFrom(c01IPPool), 1, 5, rapid.ID[string]).Draw(t, "ips")
 		nops := rapid.IntRange(1, maxOps).Draw(t, "nops")
 		for i := 0; i < nops; i++ {
-			kind := rapid.SampledFrom([]string{"connect", "connect", "connect", "connect", "connect", "update", "snapshot"}).Draw(t, "kind")
+			kind := rapid.SampledFrom([]string{"connect", "connect", "connect", "connect", "connect", "update", "snapshot", "slowconnect"}).Draw(t, "kind")
 			op := C01Op{Kind: kind}
 			switch kind {
 			case "connect":
@@ -86,6 +86,12 @@ func genC01(maxKeys, maxOps int) func(t *rapid.T) C01Case {
 				case "random":
 					op.MutArg = rapid.SampledFrom([]int{0, 1, 33, 49, 50, 51, 66, 67, 200}).Draw(t, "randLen")
 				}
+			case "slowconnect":
+				op.Key = rapid.IntRange(0, n-1).Draw(t, "key")
+				op.IP = rapid.IntRange(0, len(c.IPs)-1).Draw(t, "ip")
+				op.Seed = rapid.Int64Range(1, 1<<40).Draw(t, "seed")
+				op.Mut = "none"
+				op.List = genIdxList(t, n, "newlist", 0, n)
 			case "update":
 				op.List = genIdxList(t, n, "newlist", 0, n)
 			case "snapshot":
@@ -182,6 +188,45 @@ func runC01(c C01Case, info *kit.Info) *kit.Finding {
 				return f
 			}
 			info.Class("op:snapshot")
+		case "slowconnect":
+			// The client connects, the server takes its snapshot of the list and waits for the first bytes; the list is
+			// replaced; the bytes arrive. The in-flight connection may be judged by either list — what matters is
+			// that the replacement is not undone: later connections are judged by the new list alone (next steps).
+			ip := c.IPs[op.IP]
+			if ip == "" {
+				continue
+			}
+			key := c.Universe[op.Key].Key()
+			wire, _ := c01BuildStream(op, key, 0)
+			conn := kit.NewGatedConn(wire, addrFor(ip, 41000+i))
+			rec := kit.NewRecTCPConn()
+			done := make(chan struct{})
+			go func() { defer close(done); h.Handle(context.Background(), conn, rec) }()
+			select {
+			case <-conn.Waiting():
+			case <-time.After(5 * time.Second):
+				return kit.Violation("handle:stuck", "step %d: handler never started reading", i)
+			}
+			oldModel := model
+			model = current(op.List)
+			cl.Update(kit.CipherEntries(model))
+			conn.Open()
+			select {
+			case <-done:
+			case <-time.After(5 * time.Second):
+				return kit.Violation("handle:stuck", "step %d: handler did not return after the client's bytes arrived", i)
+			}
+			if id, ok := rec.AuthKey(); ok {
+				adm := kit.IDsWithMaterial(oldModel, c.Universe[op.Key].Material())
+				for k := range kit.IDsWithMaterial(model, c.Universe[op.Key].Material()) {
+					adm[k] = true
+				}
+				if !adm[id] {
+					return kit.Violation("auth:misattributed", "step %d: a connection in flight during a list replacement was attributed to %q; ids with that material before or after the replacement: %v", i, id, keysOf(adm))
+				}
+			}
+			info.Class("op:slowconnect")
+			info.NonTrivial = true
 		case "connect":
 			key := c.Universe[op.Key].Key()
 			var last *kit.Finding
